@@ -15,6 +15,6 @@ CONSTANTS
   MaxI = 1000000
   IncAlgo = "coded"
   Ops = {"new", "inc", "copy"}
-INVARIANTS TypeOK Sorted CachesCoherent Inc1Agree PathIndependence TwinAgreement
+INVARIANTS TypeOK Sorted CachesCoherent Inc1Agree PathIndependence TwinAgreement EvidenceProposerAgrees
 VIEW View
 CHECK_DEADLOCK FALSE
